@@ -96,8 +96,9 @@ def evaluate(case):
         n = case["n"]
         d = digits(n)
         k = n + 2 + case.get("pad", 3)
-        s = "[C]" * k + "[Ring%d]" % len(d) + "".join(d)
-        return _dec_ring(s, k, n, n >= 16, "dec_ring", "n%d" % n)
+        pre = case.get("pre", "")      # every spelling of a ring symbol carries len(d) index symbols: [=RingL], [#RingL], [-/RingL], ...
+        s = "[C]" * k + "[%sRing%d]" % (pre, len(d)) + "".join(d)
+        return _dec_ring(s, k, n, n >= 16, "dec_ring" + ("_prefixed" if pre else ""), "n%d%s" % (n, pre))
     if kind == "dec_ring_syms":
         syms = case["syms"]           # may be shorter than L: missing symbols at the end
         L = case["L"]
@@ -262,6 +263,13 @@ def shard(ctx):
             n = ch.int(0, 4095) if ch.bool(30) else ch.int(0, 600)
         return dict(kind=["dec_ring", "dec_branch", "enc_ring", "enc_branch"][w - 2], n=max(n, 1 if w == 4 else 0))
 
+    # ring symbols with a bond order or cis/trans marks, at the one/two/three-symbol boundaries
+    j = 0
+    for pre in ("=", "#", "-/", "/-", "\\/", "//", "\\-", "-\\", "/\\", "\\\\"):
+        for n in (1, 7, 15, 16, 17, 255, 256, 257, 300, 1000, 4095):
+            if j % K == k:
+                ctx.check(dict(kind="dec_ring", n=n, pre=pre))
+            j += 1
     # every non-index symbol at every digit position of a two-digit ring index
     j = 0
     for sym in NON_INDEX:
